@@ -201,18 +201,25 @@ def check_eof(c, repo):
     f2 = repo.func(MOD + ':PatternWaiter.connection_lost')
     g2 = f2.cfg
     p = f2.params[1]
-    ts = [x for x in g2.nodes if x.kind == 'test']
-    c.need(len(ts) == 2, 'connection_lost: expected two tests')
-    t1, t2 = sorted(ts, key=lambda x: x.id)
-    def eio_operand(v):
-        r = relation(v)
-        return bool(r) and r[0] == 'eq' and r[3] == 'true' and {norm(r[1]), norm(r[2])} == {'%s.errno' % p, 'errno.EIO'}
-    ok = isinstance(t1.ast, ast.BoolOp) and isinstance(t1.ast.op, ast.And) and len(t1.ast.values) == 2 and \
-        any(norm(v) == 'isinstance(%s, OSError)' % p for v in t1.ast.values) and any(eio_operand(v) for v in t1.ast.values)
-    k1 = [n for n in guard_region(g2, t1, 'true') if any(callee_last(k) == 'eof_received' for k in node_calls(n))]
-    c.check(ok and len(k1) == 1, f2, t1.ast, 'a pty closing with EIO is treated as EOF', witness=norm(t1.ast), kind='ast', tag='eio-eof')
-    k2 = [n for n in guard_region(g2, t2, 'true') if any(callee_last(k) == 'error' and k.args and is_name(k.args[0], p) for k in node_calls(n))]
-    c.check(norm(t2.ast) == '%s is not None' % p and len(k2) == 1, f2, t2.ast, 'any other connection error is delivered to the caller', kind='ast', tag='lost-error')
+    # what connection_lost does for each kind of argument, whatever the shape of its tests
+    A_NONE, A_OS = '%s is None' % p, 'isinstance(%s, OSError)' % p
+    A_EIO = atom_key(ast.parse('%s.errno == errno.EIO' % p, mode='eval').body)[0]
+    cases = (('no error (None)', {A_NONE: True, A_OS: False, A_EIO: False}, []),
+             ('OSError with errno EIO (a pty closing)', {A_NONE: False, A_OS: True, A_EIO: True}, ['eof_received']),
+             ('another OSError', {A_NONE: False, A_OS: True, A_EIO: False}, ['error']),
+             ('any other exception', {A_NONE: False, A_OS: False, A_EIO: False}, ['error']))
+    for what, sc, want in cases:
+        seqs = []
+        for path in scenario_paths(g2, sc):
+            seq = [callee_last(k) for n in path if n.ast is not None and n.kind != 'test' for k in node_calls(n) if callee_last(k) in ('eof_received', 'error', 'found', 'eof')]
+            if seq not in seqs:
+                seqs.append(seq)
+        okc = seqs == [want]
+        if okc and want == ['error']:
+            ek_ = [k for k in calls_in(f2.node) if callee_last(k) == 'error']
+            okc = all(k.args and is_name(k.args[0], p) for k in ek_)
+        c.check(okc, f2, None, 'connection_lost with %s: %s' % (what, {'[]': 'nothing happens', "['eof_received']": 'it is treated as EOF', "['error']": 'the error is delivered to the caller'}[str(want)]),
+                witness='calls made: %s' % seqs, kind='path', tag='lost:' + what.split(' ')[0] + str(len(want)) + want[0][:3] if want else 'lost:none')
 
 
 def check_wait(c, f):
